@@ -261,3 +261,4 @@ def run(run, P, only=None, units=None):
         run.stats['cmpbound_solver_steps'] += ctx.steps
     run.stats['cmpbound_declined_sites'] = ndecl
     return nsite
+
